@@ -340,8 +340,10 @@ func (db *DB) setPin(batch driver.Batching, item, rootItem shed.Item) (gcSizeCha
 						return 0, err
 					}
 				}
+				// gcSize follows the file's counter: it changes only
+				// when the counter was actually decremented
+				gcSizeChange--
 			}
-			gcSizeChange--
 		}
 	}
 
